@@ -1015,6 +1015,7 @@ class Interp:
         self-field assigned in the loop, traverse the body once from that state (collecting its
         effects, returns and raises), and continue after the loop from the havocked state."""
         assigned, fields = assigned_names(node)
+        note_gap('loop', 'summarised loop at line %d' % node.lineno, self.cur.loc(node))
         s = st.copy()
         for n in assigned:
             if n in s.env:
@@ -2694,6 +2695,12 @@ class Interp:
             return [(Tup(tuple(Tup(tuple(xs)) for xs in zip(*[a.items for a in args])), 'list'), st)]
         if name == 'reversed' and len(args) == 1 and isinstance(args[0], Tup):
             return [(Tup(tuple(reversed(args[0].items)), 'list'), st)]
+        if name == 'getattr' and len(args) in (2, 3) and isinstance(args[1], Str) and \
+                args[1].is_lit() and args[1].text().isidentifier():
+            if len(args) == 2 or isinstance(args[0], (Inst, EnumV, ObjRef, ClassRef, PkgMod)):
+                return self.get_attr(args[0], args[1].text(), st, node)
+            # getattr(x, name, default) on an opaque object: the attribute or the default
+            return [(Opaque('getattr', (args[0], args[1], args[2])), st)]
         if name == 'iter' and len(args) == 1 and self.literal_items(args[0]) is not None:
             return [(Tup(tuple(self.literal_items(args[0])), 'list'), st)]
         if name == 'next' and args and isinstance(args[0], Tup):
